@@ -626,7 +626,14 @@ let handle_open c =
   let accepted = String.length impl >= 2 && String.sub impl 0 2 = "ok" in
   spec_ok c "C13.nopanic" (impl <> "panic") "Reader::new panicked";
   spec_ok c "C13.iff" (accepted = valid_trailer_suffixb f)
-    (Printf.sprintf "open %s but valid-trailer-suffix = %b" impl (valid_trailer_suffixb f))
+    (Printf.sprintf "open %s but valid-trailer-suffix = %b" impl (valid_trailer_suffixb f));
+  (* C10: a hand-assembled version-1 trailer opens as version 1 with the stored count and codec *)
+  (match get_all c "v1" with
+   | [[codec; count]] ->
+     if int_of_string codec <= 5 then
+       spec_ok c "C10.open" (impl = Printf.sprintf "ok 0 %s %s" codec count)
+         (Printf.sprintf "V1 trailer with codec %s count %s opened as %s" codec count impl)
+   | _ -> ())
 
 
 (* ---------- C11: writer under a schedule of partial writes / interruptions ---------- *)
